@@ -1,16 +1,16 @@
 #!/bin/bash
 # tools/seed_store.sh <PID> <A|B> "<what it needs to manifest>" "<checks that caught it / missed it>"
-PID=$1; X=$2; D=/verif/seeded/$PID-$X
+PID=$1; X=$2; SR=${SEEDROOT:-/tmp/seed}; D=/verif/seeded/$PID-${SUF:-}$X
 mkdir -p $D
-cp /tmp/seed/${PID}_out/patch$X.diff $D/patch.diff
-cp /tmp/seed/${PID}_out/demo$X.py $D/demo.py
-cp /tmp/seed/${PID}_out/notes.md $D/notes.md
+cp $SR/${PID}_out/patch$X.diff $D/patch.diff
+cp $SR/${PID}_out/demo$X.py $D/demo.py
+cp $SR/${PID}_out/notes.md $D/notes.md
 /venv/bin/python - "$PID" "$X" "$3" "$4" > $D/meta.json <<'PY'
 import json,sys
 pid,x,needs,res=sys.argv[1:5]
 print(json.dumps({"property": pid, "variant": x, "breaks": pid, "needs_to_manifest": needs,
   "confirmed": "tools/seed_eval.sh: demo exits 0 on the pristine tree and 1 with the patch; pinned test suite unchanged (55 passed, the 2 TeX tests fail as before)",
-  "ran": f"tools/seed_eval.sh {pid} /tmp/seed/{pid}_out/patch{x}.diff /tmp/seed/{pid}_out/demo{x}.py <checks>",
+  "ran": f"tools/seed_eval.sh {pid} <scratch>/patch{x}.diff <scratch>/demo{x}.py <checks>",
   "result": res, "author": "independent sub-agent given only the property text and a scratch worktree"}, indent=1))
 PY
 echo stored $D
